@@ -95,12 +95,14 @@ theorem fitNode_inv (P : Params α β) (D : Data α β) (ord : List Nat → List
 /-! ### predicates over fitted trees -/
 
 /-- `Q mask feat split dec` holds at every split node, `mask` being the training rows that reach
-the node when every split sends `value <= split` to the left (what `fit` does) -/
+the node when every split sends `value <= split` to the left (what `fit` does).  A leaf-flagged node
+that keeps a child (`half`) is not a split node itself; the split nodes below it are included. -/
 def ForallSplits (D : Data α β) (Q : List Bool → Nat → α → α → Prop) : List Bool → Tree α → Prop
   | _, .leaf _ _ => True
   | m, .node f s dec _ _ l r =>
     Q m f s dec ∧ ForallSplits D Q (leftMask D m f s) l ∧ ForallSplits D Q (rightMask D m f s) r
-  | _, .half _ _ _ _ _ _ _ => True
+  | m, .half f s _ _ _ il c =>
+    ForallSplits D Q (if il then leftMask D m f s else rightMask D m f s) c
 
 /-- `Q mask pred` holds at every leaf (`leaf_node = true`) with the training rows reaching it -/
 def ForallLeaves (D : Data α β) (Q : List Bool → Nat → Prop) : List Bool → Tree α → Prop
@@ -152,7 +154,9 @@ theorem fitNode_forallSplits (P : Params α β) (D : Data α β) (ord : List Nat
     | leaf pred hm => trivial
     | node pred b l r hm hguard hok hb hdec hl hr hle hre =>
       exact ⟨hQ mask depth b hguard hb hdec hle hre, ih _ _ _ hl, ih _ _ _ hr⟩
-    | half pred b il c hguard hc hempty hb => trivial
+    | half pred b il c hguard hc hempty hb =>
+      simp only [ForallSplits]
+      exact ih _ _ _ hc
 
 theorem fitNode_forallLeaves (P : Params α β) (D : Data α β) (ord : List Nat → List Nat)
     (sorted : List (List (Nat × α))) (Q : List Bool → Nat → Prop)
